@@ -19,9 +19,11 @@ Representation choices (recorded because the theorems are about exactly these):
   together with its end-offset slot `k+2`.  A reopen reads the header `h` and then exactly the units
   `1..h`; if fewer than `h` units are valid the model answers `Err.corrupt` ("the real code would
   expose bytes nobody appended") — C14 proves that this never happens.
-* File-system assumptions (C14): `create`, `truncate`, `remove` of a directory entry and `fsync`
-  are durable when the call returns (in particular the directory itself needs no fsync); an
-  8-byte header store is not torn; `msync(MS_SYNC)` makes the whole mapping durable.
+* File-system assumptions (C14): `rename`, `remove` of a directory entry and `fsync` are durable
+  when the call returns (in particular the directory itself needs no fsync), `rename` is atomic;
+  an 8-byte header store is not torn; `msync(MS_SYNC)` makes the whole mapping durable.
+* The directory model holds `*.log` files only; `<n>.log.tmp` files (createSegment's scratch file,
+  possibly left behind by a crash) are invisible to `Open` because `segments()` globs `*.log`.
 -/
 namespace Raft.SL
 
@@ -413,9 +415,16 @@ inductive Step
   | store (name n : Nat)                -- 8-byte header store into the mapping
   | write (name k : Nat) (b : Bytes)    -- entry unit at position k (0-based): data + end-offset slot
   | msync (name : Nat)
-  | create (name : Nat)                 -- os.OpenFile(O_CREATE): zero length file
-  | truncate (name size : Nat)          -- f.Truncate(size): all zeros
-  | zero16 (name : Nat)                 -- f.WriteAt(16 zero bytes, size-16)
+  -- createSegment (repaired): everything happens on `<name>.log.tmp`, which no reopen looks at
+  | tmpCreate (name : Nat)              -- os.OpenFile(tmp, O_CREATE|O_TRUNC): zero length tmp file
+  | tmpTruncate (name size : Nat)       -- f.Truncate(size)
+  | tmpZero16 (name : Nat)              -- f.WriteAt(16 zero bytes, size-16)
+  | tmpFsync (name : Nat)               -- f.Sync()
+  | rename (name size : Nat)            -- os.Rename(tmp, name): `<name>.log` appears, complete
+  -- createSegment before the repair (kept only for `prefix_create_counterexample`)
+  | create (name : Nat)                 -- os.OpenFile(name, O_CREATE): zero length `<name>.log`
+  | truncate (name size : Nat)
+  | zero16 (name : Nat)
   | fsync (name : Nat)
   | remove (name : Nat)
   deriving Repr, Inhabited
@@ -434,10 +443,18 @@ def ins (name : Nat) (x : FileSt) : Disk → Disk
     else if name = p then (p, y) :: rest
     else (p, y) :: ins name x rest
 
+/-- The directory model holds the `*.log` files only: `segments()` globs `*.log`, so a
+`<name>.log.tmp` (left by a crash or in progress) is invisible to `Open`; the four tmp steps
+therefore do not change the modelled directory, and `rename` makes the finished file appear. -/
 def Step.run (d : Disk) : Step → Disk
   | .store name n => upd name (fun f => { f with vhdr := n }) d
   | .write name k b => upd name (fun f => { f with vunits := f.vunits.take k ++ [b] }) d
   | .msync name => upd name (fun f => { f with dhdr := f.vhdr, dunits := f.vunits }) d
+  | .tmpCreate _ => d
+  | .tmpTruncate _ _ => d
+  | .tmpZero16 _ => d
+  | .tmpFsync _ => d
+  | .rename name size => ins name (FileSt.zero size) d
   | .create name => ins name (FileSt.zero 0) d
   | .truncate name size => upd name (fun _ => FileSt.zero size) d
   | .zero16 _ => d
@@ -459,6 +476,10 @@ def Seg.removeGTESteps (s : Seg) (i : Nat) : List Step :=
   else s.syncSteps
 
 def createSteps (name size : Nat) : List Step :=
+  [.tmpCreate name, .tmpTruncate name size, .tmpZero16 name, .tmpFsync name, .rename name size]
+
+/-- `createSegment` as it was before the repair (created `<name>.log` directly). -/
+def oldCreateSteps (name size : Nat) : List Step :=
   [.create name, .truncate name size, .zero16 name, .fsync name]
 
 def commitSteps (n : Nat) : List Seg → List Step
